@@ -76,7 +76,7 @@ def strategy():
 
 
 def shard(shard, nshards, tier, seed, scratch):
-    total = 12000 if tier == 'quick' else 200000
+    total = 24000 if tier == 'quick' else 240000
     stats = Stats()
     failures = run_hypothesis(strategy(), lambda c: check_case(c, stats), max(1, total // nshards), seed,
                               shrink_budget=300 if tier == 'quick' else 2000)
